@@ -331,7 +331,17 @@ def run(ck):
         hostile.append(("hr%d" % hi, "ctx=9001 realm=%d" % (hi + 1), h))   # hostile realms of the context the programs share
     after_ctx = list(hostile) + [("p%d" % i, "ctx=%d drop=1" % (i + 1), p) for i, p in enumerate(progs)]
     rc2, r_ctx, err2 = engine(after_ctx)
-    after_realm = list(hostile) + [("p%d" % i, "ctx=9001 realm=%d" % (100 + i), p) for i, p in enumerate(progs)]
+    # the instruction budget of the harness is per CONTEXT: sibling realms share it, so the programs are spread over several
+    # contexts, each with its own set of hostile realms
+    GROUP = 60
+    after_realm = list(hostile)
+    for gi in range(0, len(progs), GROUP):
+        cid = 9001 + gi // GROUP
+        if gi:
+            for hi, h in enumerate(HISTORIES):
+                after_realm.append(("hr%d.%d" % (hi, cid), "ctx=%d realm=%d" % (cid, hi + 1), h))
+        for i in range(gi, min(gi + GROUP, len(progs))):
+            after_realm.append(("p%d" % i, "ctx=%d realm=%d" % (cid, 100 + i), progs[i]))
     rc3, r_realm, err3 = engine(after_realm)
     rc4, r_pad, err4 = engine(list(reversed(alone)), pad=3_000_017, env={"MALLOC_PERTURB_": "165", "BOA_VERIF_NOISE": "x" * 1000})
     nd = iso_c = iso_r = 0
